@@ -1,7 +1,8 @@
 ----------------------------- MODULE PowerFlow -----------------------------
 (***************************************************************************)
 (* Power flow through one locomotive (conventional: engine -> generator -> *)
-(* drivetrain; battery-electric: battery <-> drivetrain).                   *)
+(* drivetrain; battery-electric: battery <-> drivetrain; hybrid: engine ->  *)
+(* generator and battery -> drivetrain).                                    *)
 (*   C01  the energy ledger closes            (L1 .. L10, Integ)            *)
 (*   C08  second law, engine off burns nothing (LossNonNeg, EtaRange,       *)
 (*        Order*, Monotone, DynBrakeSign, EngineOff)                        *)
@@ -38,8 +39,10 @@ Abs(a) == IF a < 0 THEN -a ELSE a
 FDiv(a, k) == a \div k                         \* floor (TLA+ \div rounds towards minus infinity)
 
 VARIABLES
-  cfg,    \* constants of the unit: [kind, rfc, rgen, redrv, rres, floor, lag, aux, auxkd, idle, kf, kg, ke, kr,
-          \*   flat, cap, smin, slo, shi, smax, delta, ps, ds, lat, assert]
+  cfg,    \* constants of the unit: [kind ("conv"|"bel"|"hyb"), rfc, rgen, redrv, rres, floor, lag, aux, auxkd, idle,
+          \*   kf, kg, ke, kr, flat, cap, smin, slo, shi, smax, delta, ps, ds, lat, assert,
+          \*   pb0 (shaft power before the first step: a warmed-up engine), haux (the hybrid's hard-coded generator
+          \*   aux load), split2 (2 * HybridLoco.fuel_res_split, fixed split: fuel_res_ratio = None)]
   pc,     \* "aux" -> "pub" -> "solve" -> ("adv" after an accepted step) -> "aux"
   st,     \* the step being executed: [eng, dtq, req, cls, acc]
   pub,    \* limits published by set_cur_pwr_max_out for this step (PubKeys) incl. the aux load they assumed
@@ -69,6 +72,9 @@ ZeroSt == [eng |-> TRUE, dtq |-> 1, req |-> 0, cls |-> "zero", acc |-> FALSE]
 Eta1 == [f |-> 65536, g |-> 65536, e |-> 65536, r |-> 65536]
 
 Conv == cfg.kind = "conv"
+Hyb  == cfg.kind = "hyb"
+HasFc  == cfg.kind \in {"conv", "hyb"}       \* engine + generator present
+HasRes == cfg.kind \in {"bel", "hyb"}        \* battery present
 Acc == pc = "adv"                 \* an accepted step has just been solved: p, e, pe, eta, soc, psoc describe it
 Pubd == pc = "solve"              \* limits have just been published: pub describes them, p is the step before
 
@@ -91,13 +97,14 @@ LeEps(a, lim) == LET d == a - lim - T IN d <= 0 \/ (d < 1048576 /\ (d * 1000 <= 
 ----------------------------------------------------------------------------
 (*                               Level A                                     *)
 (* ---- C01: ledgers, on a record r of powers (r = p) or energies (r = e) --- *)
-L1of(r)  == Conv => Eq(r.fuel, r.brake + r.lossf, T)                     \* fuel = shaft + engine loss
-L2of(r)  == Conv => Eq(r.brake, r.mech, T)                               \* engine shaft = generator input
-L3of(r)  == Conv => Eq(r.mech, r.gprop + r.gaux + r.lossg, T)            \* generator input = prop + aux + loss
-L4of(r)  == IF Conv THEN Eq(r.gprop, r.ine, T) ELSE Eq(r.rprop, r.ine, T) \* source output = drivetrain input
+L1of(r)  == HasFc => Eq(r.fuel, r.brake + r.lossf, T)                    \* fuel = shaft + engine loss
+L2of(r)  == HasFc => Eq(r.brake, r.mech, T)                              \* engine shaft = generator input
+L3of(r)  == HasFc => Eq(r.mech, r.gprop + r.gaux + r.lossg, T)           \* generator input = prop + aux + loss
+L4of(r)  == Eq(r.gprop + r.rprop, r.ine, T)                              \* source output(s) = drivetrain input
+                                                                         \* (gprop = 0 without generator, rprop = 0 without battery)
 L5of(r)  == Eq(r.ine, r.oute + r.losse, T)                               \* signed: holds in traction and in regen
 L6of(r)  == Eq(r.out, r.oute - r.dyn, T)                                 \* wheel = propulsion - dynamic braking
-L7of(r)  == ~Conv => Eq(r.elec, r.rprop + r.raux, T) /\ Eq(r.chem, r.elec + r.lossr, T)   \* signed
+L7of(r)  == HasRes => Eq(r.elec, r.rprop + r.raux, T) /\ Eq(r.chem, r.elec + r.lossr, T)   \* signed
 L9of(r)  == Eq(r.fuel + r.chem,                                          \* headline
                r.out + r.dyn + r.gaux + r.raux + r.lossf + r.lossg + r.losse + r.lossr, T)
 
@@ -109,20 +116,25 @@ L5 == L5of(e)   L5s == Acc => L5of(p)
 L6 == L6of(e)   L6s == Acc => L6of(p)
 L7 == L7of(e)   L7s == Acc => L7of(p)
 L9 == L9of(e)   L9s == Acc => L9of(p)
-L8  == ~Conv => Eq(soc0 - soc, e.chem, T)                                \* SOC moves by exactly the chemical energy
-L8s == Acc /\ ~Conv => Eq(psoc - soc, p.chem * st.dtq, TI)
+L8  == HasRes => Eq(soc0 - soc, e.chem, T)                               \* SOC moves by exactly the chemical energy
+L8s == Acc /\ HasRes => Eq(psoc - soc, p.chem * st.dtq, TI)
 (* per-step energies are the powers times dt: with L*s this is the ledger on every delta e *)
 Integ == Acc => \A x \in EKeys : Eq(e[x] - pe[x], p[x] * st.dtq, TI)
 
-(* L10, the aux roll-up.  F-C01-1 (known): BatteryElectricLoco::solve_energy_consumption              *)
-(* (battery_electric_loco.rs:52-60) curtails the battery's aux to res.pwr_prop_out_max - elec_prop_in   *)
-(* when traction <= 0, Locomotive integrates the uncurtailed pwr_aux (locomotive_model.rs:1135).        *)
-(* CurtailClass is that input class; inside it the per-step relation is reported under its own name    *)
-(* (AuxCurtailed) and its discrepancy is carried in `gap`, so that the cumulative L10 keeps deciding   *)
-(* on everything outside the class.                                                                     *)
-CurtailClass == ~Conv /\ st.req <= 0 /\ pub.propmax - p.ine < pub.aux
-L10s         == Acc /\ ~CurtailClass => Eq(p.aux, p.gaux + p.raux, T)
+(* L10, the aux roll-up: loco.pwr_aux = aux drawn from the components.  Two known input classes break it *)
+(* on the current tree; inside them the per-step relation is reported under its own name and the        *)
+(* discrepancy is carried in `gap`, so that the cumulative L10 keeps deciding everywhere else:          *)
+(*  F-C01-1  BatteryElectricLoco::solve_energy_consumption (battery_electric_loco.rs:52-60) curtails    *)
+(*           the battery's aux to res.pwr_prop_out_max - elec_prop_in when traction <= 0, Locomotive    *)
+(*           integrates the uncurtailed pwr_aux (locomotive_model.rs:1135)          -> AuxCurtailed     *)
+(*  F-C01-2  HybridLoco::solve_energy_consumption feeds the generator a hard-coded 50 kW aux           *)
+(*           (hybrid_loco.rs:299, :318, `// TODO: fix this`) whatever Locomotive.state.pwr_aux is       *)
+(*           (every hybrid step)                                                    -> HybAuxRoll       *)
+CurtailClass == cfg.kind = "bel" /\ st.req <= 0 /\ pub.propmax - p.ine < pub.aux
+KnownAuxClass == CurtailClass \/ Hyb
+L10s         == Acc /\ ~KnownAuxClass => Eq(p.aux, p.gaux + p.raux, T)
 AuxCurtailed == Acc /\ CurtailClass  => Eq(p.aux, p.gaux + p.raux, T)
+HybAuxRoll   == Acc /\ Hyb           => Eq(p.aux, p.gaux + p.raux, T)
 L10          == Eq(e.aux - gap, e.gaux + e.raux, T + 2 * T1 * n)   \* off-lattice: gap is a sum of rounded differences
 
 LedgerStep == L1s /\ L2s /\ L3s /\ L4s /\ L5s /\ L6s /\ L7s /\ L8s /\ L9s /\ L10s /\ Integ
@@ -130,43 +142,53 @@ LedgerCum  == L1 /\ L2 /\ L3 /\ L4 /\ L5 /\ L6 /\ L7 /\ L8 /\ L9 /\ L10
 Ledger     == LedgerStep /\ LedgerCum                                    \* C01
 
 (* ---- C08 ---------------------------------------------------------------- *)
-Comps == IF Conv THEN {"f", "g", "e"} ELSE {"e", "r"}
+Comps == CASE cfg.kind = "conv" -> {"f", "g", "e"} [] cfg.kind = "bel" -> {"e", "r"} [] OTHER -> {"f", "g", "e", "r"}
 LossNonNeg == Acc => /\ p.lossf >= -T /\ p.lossg >= -T /\ p.losse >= -T /\ p.lossr >= -T
                      /\ e.lossf >= -T /\ e.lossg >= -T /\ e.losse >= -T /\ e.lossr >= -T
 EtaRange   == Acc => \A x \in Comps : 0 < eta[x] /\ eta[x] <= 65536      \* logged rounded up at 2^-16
-OrderFc    == Acc /\ Conv => p.brake <= p.fuel + T
-OrderGen   == Acc /\ Conv => p.gprop + p.gaux <= p.mech + T
+OrderFc    == Acc /\ HasFc => p.brake <= p.fuel + T
+OrderGen   == Acc /\ HasFc => p.gprop + p.gaux <= p.mech + T
 OrderEdrv  == Acc => IF st.req > 0 THEN p.oute <= p.ine + T ELSE Abs(p.ine) <= Abs(p.oute) + T
-OrderRes   == Acc /\ ~Conv => IF p.elec > 0 THEN p.elec <= p.chem + T ELSE Abs(p.chem) <= Abs(p.elec) + T
+OrderRes   == Acc /\ HasRes => IF p.elec > 0 THEN p.elec <= p.chem + T ELSE Abs(p.chem) <= Abs(p.elec) + T
 Monotone   == Acc => \A x \in {"fuel", "lossf", "lossg", "losse", "lossr", "dyn", "edyn"} : e[x] >= pe[x] - T1
 DynBrakeSign == Acc => p.dyn >= -T /\ (p.dyn > T => st.req < 0)
-EngineOff  == Acc /\ ~st.eng => /\ p.fuel = 0 /\ p.gaux = 0 /\ p.raux = 0 /\ p.aux = 0
-                                /\ e.fuel = pe.fuel /\ e.gaux = pe.gaux /\ e.raux = pe.raux /\ e.aux = pe.aux
+(* engine commanded off: no fuel, no aux in that step.  F-C08-2 (known): Locomotive::solve_energy_consumption  *)
+(* does not hand engine_on to a HybridLoco (locomotive_model.rs:1119-1121, `TODO: add engine_on and pwr_aux`),   *)
+(* which solves its engine with engine_on = true and the 50 kW generator aux (hybrid_loco.rs:302, :322):        *)
+(* reported as HybEngineOff for hybrid units, EngineOff for every other unit.                                   *)
+EngineOffRel == /\ p.fuel = 0 /\ p.gaux = 0 /\ p.raux = 0 /\ p.aux = 0
+                /\ e.fuel = pe.fuel /\ e.gaux = pe.gaux /\ e.raux = pe.raux /\ e.aux = pe.aux
+EngineOff    == Acc /\ ~st.eng /\ ~Hyb => EngineOffRel
+HybEngineOff == Acc /\ ~st.eng /\ Hyb  => EngineOffRel
 SecondLaw  == LossNonNeg /\ EtaRange /\ OrderFc /\ OrderGen /\ OrderEdrv /\ OrderRes /\ DynBrakeSign
 
 (* ---- C09 ---------------------------------------------------------------- *)
 Lim == Acc /\ cfg.assert
-FcRating    == Lim /\ Conv => LeEps(p.brake, cfg.rfc)
-FcTransient == Lim /\ Conv => LeEps(p.brake, pub.fc)
-GenRating   == Lim /\ Conv => p.gprop + p.gaux <= cfg.rgen + T
+FcRating    == Lim /\ HasFc => LeEps(p.brake, cfg.rfc)
+FcTransient == Lim /\ HasFc => LeEps(p.brake, pub.fc)
+GenRating   == Lim /\ HasFc => p.gprop + p.gaux <= cfg.rgen + T
 EdrvRating  == Lim => Abs(p.oute) <= cfg.redrv + T         \* propulsion / regen path; braking beyond it is C10's
-ResRating   == Lim /\ ~Conv => LeEps(Abs(p.elec), cfg.rres)
-ResDisch    == Lim /\ ~Conv /\ p.elec > 0 => LeEps(p.elec, pub.disch)
-ResCharge   == Lim /\ ~Conv /\ p.elec < 0 => LeEps(-p.elec, pub.charge)
+ResRating   == Lim /\ HasRes => LeEps(Abs(p.elec), cfg.rres)
+ResDisch    == Lim /\ HasRes /\ p.elec > 0 => LeEps(p.elec, pub.disch)
+ResCharge   == Lim /\ HasRes /\ p.elec < 0 => LeEps(-p.elec, pub.charge)
 (* The wheel limit is not re-checked by the code, it follows from the chain: what eps on the source   *)
 (* check is worth at the wheel.  conv: mech <= fc_pub(1+eps) => req <= loco_pub + eps*fc_pub/(kg*ke);  *)
-(* BEL: elec <= disch(1+eps) => req <= loco_pub + eps*disch/ke.  Stated for flat maps only (with       *)
-(* load-dependent eta the published wheel limit is evaluated at another operating point).              *)
+(* BEL: elec <= disch(1+eps) => req <= loco_pub + eps*disch/ke; hybrid: both sources (and ASSUME        *)
+(* pwr_aux <= haux: the published limit subtracts pwr_aux twice, the solve loads the generator with     *)
+(* haux once).  Stated for flat maps only (with load-dependent eta the published wheel limit is         *)
+(* evaluated at another operating point).                                                               *)
 AbsEpsQ == cfg.ps \div 1000 + 1
-Slack == (IF Conv THEN Max2(cfg.rfc \div 1000, AbsEpsQ) \div (cfg.kg * cfg.ke)
-                  ELSE Max2(cfg.rres \div 1000, AbsEpsQ) \div cfg.ke) + 2 + T
-LocoPub     == Lim /\ cfg.flat /\ st.req > 0 => p.out <= pub.loco + Slack
+Slack == (CASE cfg.kind = "conv" -> Max2(cfg.rfc \div 1000, AbsEpsQ) \div (cfg.kg * cfg.ke)
+            [] cfg.kind = "bel"  -> Max2(cfg.rres \div 1000, AbsEpsQ) \div cfg.ke
+            [] OTHER             -> (Max2(cfg.rfc \div 1000, AbsEpsQ) \div cfg.kg + Max2(cfg.rres \div 1000, AbsEpsQ)) \div cfg.ke + 2)
+         + 2 + T
+LocoPub     == Lim /\ cfg.flat /\ st.req > 0 /\ (Hyb => pub.aux <= cfg.haux) => p.out <= pub.loco + Slack
 WithinLimits == FcRating /\ FcTransient /\ GenRating /\ EdrvRating /\ ResRating /\ ResDisch /\ ResCharge /\ LocoPub
 
 (* ASSUME floor <= rating (FuelConverter::set_cur_pwr_out_max applies .min(rating) before .max(floor)) *)
 RateDt == (cfg.rfc * st.dtq) \div (cfg.lag * cfg.ds) + T1          \* (rating / lag) * dt, rounded up off-lattice
-Ramp == Pubd /\ Conv => /\ pub.fc <= Max2(p.brake + RateDt, cfg.floor) + T
-                        /\ pub.fc <= cfg.rfc + T
+Ramp == Pubd /\ HasFc => /\ pub.fc <= Max2(p.brake + RateDt, cfg.floor) + T
+                         /\ pub.fc <= cfg.rfc + T
 
 (* SOC window.  ASSUME: the initial SOC is inside the window and every step so far had dt <= DtSafe:    *)
 (* with x = soc - min on the discharge ramp, disch = x*R/W (W = capacity*(lo_ramp - min)), so           *)
@@ -177,49 +199,61 @@ DtSafeOk(dtq) == /\ dtq * cfg.kr * cfg.rres <= ((cfg.slo - cfg.smin) \div 1001) 
                  /\ dtq * cfg.rres <= cfg.smax - cfg.shi
 (* the absolute branch of almost_le admits 0.001 W beyond a zero limit: one step of that *)
 SocSlack == AbsEpsQ * cfg.kr * 64 + T
-SocWindow == ~Conv /\ safe => cfg.smin - SocSlack <= soc /\ soc <= cfg.smax + SocSlack
+SocWindow == HasRes /\ safe => cfg.smin - SocSlack <= soc /\ soc <= cfg.smax + SocSlack
 
+SaneFc  == /\ cfg.floor - T <= pub.fc /\ pub.fc <= cfg.rfc + T
+           /\ pub.gen <= cfg.rgen + T /\ Eq(pub.gprop, pub.gen - pub.aux, T)
+SaneRes == /\ 0 <= pub.disch /\ pub.disch <= cfg.rres + T
+           /\ 0 <= pub.charge /\ pub.charge <= cfg.rres + T
+           /\ Eq(pub.propmax, pub.disch - pub.aux, T) /\ Eq(pub.regenout, pub.charge + pub.aux, T)
+           /\ 0 <= pub.regen /\ pub.regen <= cfg.redrv + T
 PublishedSane == Pubd =>
-  IF Conv THEN /\ cfg.floor - T <= pub.fc /\ pub.fc <= cfg.rfc + T
-               /\ pub.gen <= cfg.rgen + T /\ Eq(pub.gprop, pub.gen - pub.aux, T)
-               /\ pub.loco <= cfg.redrv + T /\ pub.loco >= -pub.aux - T
-               /\ pub.regen = 0
-          ELSE /\ 0 <= pub.disch /\ pub.disch <= cfg.rres + T
-               /\ 0 <= pub.charge /\ pub.charge <= cfg.rres + T
-               /\ Eq(pub.propmax, pub.disch - pub.aux, T) /\ Eq(pub.regenout, pub.charge + pub.aux, T)
-               /\ pub.loco <= cfg.redrv + T /\ pub.loco >= -pub.aux - T
-               /\ 0 <= pub.regen /\ pub.regen <= cfg.redrv + T
+  /\ (HasFc => SaneFc) /\ (HasRes => SaneRes) /\ (~HasRes => pub.regen = 0)
+  /\ pub.loco <= cfg.redrv + T
+  /\ pub.loco >= -(IF Hyb THEN 2 ELSE 1) * pub.aux - T        \* never negative beyond the auxiliary load
 Limits == WithinLimits /\ Ramp /\ SocWindow /\ PublishedSane             \* C09
 
 ----------------------------------------------------------------------------
 (*                               Level B                                     *)
+CONSTANT Fault      \* "none" = the code as it is; otherwise one deliberate defect (fault models of bin/selftest):
+                    \* "idle_when_off" (F-C08-1 reverted), "no_transient_check", "gen_ignores_aux", "soc_sign"
+
 (* Locomotive::set_pwr_aux (locomotive_model.rs:1140): offset + coeff*|pwr_out| of the previous step   *)
 AuxOf(c, eng, out) == IF eng THEN c.aux + (IF c.auxkd = 0 THEN 0 ELSE FDiv(Abs(out), c.auxkd)) ELSE 0
 
 (* set_cur_pwr_max_out chains: conventional_loco.rs:126 (fc -> gen -> edrv), battery_electric_loco.rs:98 *)
+(* (res -> edrv), hybrid_loco.rs:126 (res, fc -> gen, gen + res -> edrv)                                  *)
 PubOf(c, aux, brake, s, dtq) ==
-  IF c.kind = "conv" THEN
-    LET fcpub  == Max2(Min2(brake + (c.rfc * dtq) \div (c.lag * c.ds), c.rfc), c.floor)   \* fuel_converter.rs:177
-        genmax == Min2(FDiv(fcpub, c.kg), c.rgen)                                          \* generator.rs:332
-        gprop  == genmax - aux
-        loco   == Min2(c.redrv, FDiv(gprop, c.ke))                                         \* electric_drivetrain.rs:274
-    IN [fc |-> fcpub, gen |-> genmax, gprop |-> gprop, loco |-> loco, regen |-> 0,
-        disch |-> 0, charge |-> 0, propmax |-> 0, regenout |-> 0, aux |-> aux]
-  ELSE
-    LET wlo == (c.slo - c.smin) \div c.rres        \* energy units per power unit on the ramp (ASSUME divisible)
-        whi == (c.smax - c.shi) \div c.rres
-        disch  == IF s <= c.smin THEN 0 ELSE IF s >= c.slo THEN c.rres ELSE FDiv(s - c.smin, wlo)   \* res.rs:439
-        charge == IF s <= c.shi THEN c.rres ELSE IF s >= c.smax THEN 0 ELSE FDiv(c.smax - s, whi)   \* res.rs:450
-        propmax  == disch - aux
-        regenout == charge + aux
-        loco   == Min2(c.redrv, FDiv(propmax, c.ke))
-        regen  == Min2(FDiv(regenout, c.ke), c.redrv)                                      \* electric_drivetrain.rs:164
-    IN [fc |-> 0, gen |-> 0, gprop |-> 0, loco |-> loco, regen |-> regen,
-        disch |-> disch, charge |-> charge, propmax |-> propmax, regenout |-> regenout, aux |-> aux]
+  LET hasfc  == c.kind # "bel"
+      hasres == c.kind # "conv"
+      fcpub  == IF hasfc THEN Max2(Min2(brake + (c.rfc * dtq) \div (c.lag * c.ds), c.rfc), c.floor) ELSE 0  \* fuel_converter.rs:177
+      genmax == IF hasfc THEN Min2(FDiv(fcpub, c.kg), c.rgen) ELSE 0                                        \* generator.rs:332
+      gprop  == IF hasfc THEN genmax - aux ELSE 0
+      wlo == (c.slo - c.smin) \div c.rres        \* energy units per power unit on the ramp (ASSUME divisible)
+      whi == (c.smax - c.shi) \div c.rres
+      disch  == IF ~hasres THEN 0 ELSE
+                IF s <= c.smin THEN 0 ELSE IF s >= c.slo THEN c.rres ELSE FDiv(s - c.smin, wlo)             \* res.rs:439
+      charge == IF ~hasres THEN 0 ELSE
+                IF s <= c.shi THEN c.rres ELSE IF s >= c.smax THEN 0 ELSE FDiv(c.smax - s, whi)             \* res.rs:450
+      propmax  == IF hasres THEN disch - aux ELSE 0
+      regenout == IF hasres THEN charge + aux ELSE 0
+      loco   == Min2(c.redrv, FDiv(gprop + propmax, c.ke))                                                  \* electric_drivetrain.rs:274
+      regen  == IF hasres THEN Min2(FDiv(regenout, c.ke), c.redrv) ELSE 0                                   \* electric_drivetrain.rs:164
+  IN [fc |-> fcpub, gen |-> genmax, gprop |-> gprop, loco |-> loco, regen |-> regen,
+      disch |-> disch, charge |-> charge, propmax |-> propmax, regenout |-> regenout, aux |-> aux]
 
 (* utils::almost_le / almost_ge with Some(TOL), exactly (strict comparisons) *)
 LeTol(c, a, lim) == LET d == a - lim IN d < 0 \/ (d < 1048576 /\ (d * 1000 < lim \/ d * 1000 < c.ps))
 GeTol(c, a, lim) == LET d == a - lim IN d > 0 \/ (d > -1048576 /\ (d * 1000 > -lim \/ d * 1000 > -c.ps))
+
+(* FuelConverter::solve_energy_consumption: accepts shaft power mech?  (fuel_converter.rs:193, :201, :209, :241) *)
+FcOk(c, pb, mech, eng) == /\ (c.assert => LeTol(c, mech, c.rfc) /\ (Fault = "no_transient_check" \/ LeTol(c, mech, pb.fc)))
+                          /\ mech >= 0 /\ (eng \/ mech = 0)
+(* ReversibleEnergyStorage::solve_energy_consumption guards and limit checks (res.rs:475, :481, :489-:523) *)
+ResOk(c, pb, s, prop, elec) == /\ (s <= c.smax \/ prop >= 0) /\ (s >= c.smin \/ prop <= 0)
+                               /\ IF elec >= 0 THEN LeTol(c, elec, c.rres) /\ LeTol(c, elec, pb.disch)
+                                               ELSE GeTol(c, elec, -c.rres) /\ GeTol(c, elec, -pb.charge)
+ChemOf(c, elec) == IF elec > 0 THEN elec * c.kr ELSE FDiv(elec, c.kr)     \* res.rs:570
 
 (* Locomotive::solve_energy_consumption (locomotive_model.rs:1098) *)
 SolveOf(c, pb, req, eng, s) ==
@@ -230,28 +264,42 @@ SolveOf(c, pb, req, eng, s) ==
       okE   == req <= c.redrv                                             \* :171
       base  == [Zero EXCEPT !.ine = ine, !.oute = prop, !.dyn = dyn, !.edyn = edyn,
                             !.losse = Abs(prop - ine), !.out = prop - dyn, !.aux = pb.aux]
-  IN IF c.kind = "conv" THEN
+  IN CASE c.kind = "conv" ->
        LET auxe == IF eng THEN pb.aux ELSE 0                              \* conventional_loco.rs:66
            mech == (ine + auxe) * c.kg                                    \* generator.rs:294
-           idle == IF eng THEN c.idle ELSE 0                              \* fuel_converter.rs:235 (repaired: state value)
+           idle == IF eng \/ Fault = "idle_when_off" THEN c.idle ELSE 0   \* fuel_converter.rs:235 (repaired: state value)
            fuel == mech * c.kf + idle
-           ok   == /\ okE /\ ine >= 0 /\ ine + auxe <= c.rgen              \* generator.rs:254, :261
-                   /\ (c.assert => LeTol(c, mech, c.rfc) /\ LeTol(c, mech, pb.fc))   \* fuel_converter.rs:193, :201
-                   /\ mech >= 0 /\ (eng \/ mech = 0)                      \* :209, :241
+           ok   == /\ okE /\ ine >= 0                                     \* generator.rs:254
+                   /\ (IF Fault = "gen_ignores_aux" THEN ine ELSE ine + auxe) <= c.rgen     \* :261
+                   /\ FcOk(c, pb, mech, eng)
        IN [ok |-> ok,
            p |-> [base EXCEPT !.gprop = ine, !.gaux = auxe, !.mech = mech, !.lossg = mech - (ine + auxe),
                               !.brake = mech, !.fuel = fuel, !.lossf = fuel - mech, !.idle = idle],
            chem |-> 0]
-     ELSE
+     [] c.kind = "bel" ->
        LET auxr == IF ine > 0 THEN pb.aux ELSE Max2(Min2(pb.aux, pb.propmax - ine), 0)  \* battery_electric_loco.rs:47-60
            elec == ine + auxr
-           chem == IF elec > 0 THEN elec * c.kr ELSE FDiv(elec, c.kr)     \* res.rs:570
-           ok   == /\ okE
-                   /\ (s <= c.smax \/ ine >= 0) /\ (s >= c.smin \/ ine <= 0)   \* res.rs:475, :481
-                   /\ IF elec >= 0 THEN LeTol(c, elec, c.rres) /\ LeTol(c, elec, pb.disch)     \* :489, :501
-                                   ELSE GeTol(c, elec, -c.rres) /\ GeTol(c, elec, -pb.charge)  \* :510, :523
+           chem == ChemOf(c, elec)
+           ok   == okE /\ ResOk(c, pb, s, ine, elec)
        IN [ok |-> ok,
            p |-> [base EXCEPT !.rprop = ine, !.raux = auxr, !.elec = elec, !.chem = chem, !.lossr = Abs(chem - elec)],
+           chem |-> IF Fault = "soc_sign" THEN -chem ELSE chem]
+     [] OTHER ->
+       (* HybridLoco::solve_energy_consumption (hybrid_loco.rs:243) with fuel_res_ratio = None: the split is the    *)
+       (* fixed fraction fuel_res_split (1 = all from the generator), limited by what the battery published;       *)
+       (* the generator is always loaded with the hard-coded haux and the engine always solved as running.         *)
+       LET fromres == IF ine > 0 THEN Min2(pb.propmax, FDiv(ine * (2 - c.split2), 2)) ELSE ine   \* :289-:293, :309
+           fromgen == ine - fromres                                                              \* :295 (0 in braking, :317)
+           mech == (fromgen + c.haux) * c.kg
+           fuel == mech * c.kf + c.idle
+           chem == ChemOf(c, fromres)
+           ok   == /\ okE /\ fromgen >= 0 /\ fromgen + c.haux <= c.rgen
+                   /\ FcOk(c, pb, mech, TRUE)
+                   /\ ResOk(c, pb, s, fromres, fromres)
+       IN [ok |-> ok,
+           p |-> [base EXCEPT !.gprop = fromgen, !.gaux = c.haux, !.mech = mech, !.lossg = mech - (fromgen + c.haux),
+                              !.brake = mech, !.fuel = fuel, !.lossf = fuel - mech, !.idle = c.idle,
+                              !.rprop = fromres, !.raux = 0, !.elec = fromres, !.chem = chem, !.lossr = Abs(chem - fromres)],
            chem |-> chem]
 
 EtaOf(c) == [f |-> 65536 \div c.kf, g |-> 65536 \div c.kg, e |-> 65536 \div c.ke, r |-> 65536 \div c.kr]
@@ -262,27 +310,29 @@ ReqOf(c, pb, cls) ==
     [] cls = "half"   -> FDiv(pb.loco, 2)
     [] cls = "pubm"   -> pb.loco - c.delta
     [] cls = "pub"    -> pb.loco
-    [] cls = "pubp"   -> pb.loco + c.delta            \* inside the code's tolerance
+    [] cls = "pubp"   -> pb.loco + c.delta            \* inside the code's tolerance (when the tolerant check binds)
     [] cls = "over"   -> pb.loco + FDiv(pb.loco, 64)  \* + 1.6 %: outside
     [] cls = "regenm" -> -pb.regen + c.delta
     [] cls = "regen"  -> -pb.regen
     [] cls = "regenp" -> -pb.regen - c.delta
     [] cls = "dyn"    -> -c.redrv                     \* what a consist would allow this unit to brake
     [] cls = "dynp"   -> -c.redrv - c.delta
+    [] cls = "rate"   -> c.redrv                      \* the drivetrain's own rating, whatever was published
+    [] cls = "ratep"  -> c.redrv + c.delta
 
 ----------------------------------------------------------------------------
 (* Level B as a transition system *)
 CONSTANTS Cfgs,          \* set of unit records
-          Soc0s,         \* initial battery contents as multiples of cap/16 (BEL)
+          Soc0s,         \* initial battery contents as multiples of cap/16 (units with a battery)
           Dts,           \* set of dtq
           Engs,          \* subset of BOOLEAN
           ClsOn, ClsOff, \* demand classes offered with the engine on / off
           Depth
 
 Init == /\ cfg \in Cfgs
-        /\ soc0 \in (IF cfg.kind = "bel" THEN {k * (cfg.cap \div 16) : k \in Soc0s} ELSE {0})
+        /\ soc0 \in (IF cfg.kind # "conv" THEN {k * (cfg.cap \div 16) : k \in Soc0s} ELSE {0})
         /\ soc = soc0 /\ psoc = soc0
-        /\ pc = "aux" /\ st = ZeroSt /\ pub = ZeroPub /\ p = Zero /\ e = Zero /\ pe = Zero /\ eta = Eta1
+        /\ pc = "aux" /\ st = ZeroSt /\ pub = ZeroPub /\ p = [Zero EXCEPT !.brake = cfg.pb0] /\ e = Zero /\ pe = Zero /\ eta = Eta1
         /\ gap = 0 /\ safe = TRUE /\ ex = TRUE /\ i = 1 /\ n = 0 /\ hist = <<>>
 
 SetAux == /\ pc = "aux" /\ n < Depth
@@ -310,9 +360,9 @@ Solve == /\ pc = "solve"
                  /\ p' = r.p /\ pe' = e /\ e' = [x \in EKeys |-> e[x] + r.p[x] * st.dtq]
                  /\ eta' = EtaOf(cfg)
                  /\ psoc' = soc /\ soc' = soc - r.chem * st.dtq                       \* res.rs:584
-                 /\ gap' = gap + (IF cfg.kind = "bel" /\ req <= 0 /\ pub.propmax - r.p.ine < pub.aux    \* CurtailClass'
-                                  THEN (r.p.aux - r.p.raux) * st.dtq ELSE 0)
-                 /\ safe' = (safe /\ (cfg.kind = "bel" => DtSafeOk(st.dtq)))
+                 /\ gap' = gap + (IF cfg.kind = "hyb" \/ (cfg.kind = "bel" /\ req <= 0 /\ pub.propmax - r.p.ine < pub.aux)   \* KnownAuxClass'
+                                  THEN (r.p.aux - r.p.raux - r.p.gaux) * st.dtq ELSE 0)
+                 /\ safe' = (safe /\ (cfg.kind # "conv" => DtSafeOk(st.dtq)))
                  /\ hist' = Append(hist, [eng |-> st.eng, dt |-> st.dtq, cls |-> cls])
          /\ pc' = "adv" /\ n' = n + 1
          /\ UNCHANGED <<cfg, pub, soc0, ex, i>>
